@@ -131,6 +131,7 @@ func vC03Cut(L int) {
 		vAssert(p.live == 0, op.name+": the source is still subscribed after the subscription closed")
 		vAssert(p.maxTorn() <= 1, op.name+": the source's teardown ran more than once")
 		sub.Wait() // must return (a hang is reported as a deadlock)
+		vQuiesce() // a goroutine that has been told to stop gets the chance to do so
 		run, blk := vLive()
 		vAssert(run == 0 && blk == 0, op.name+": a library goroutine is left after the subscription closed")
 	} else {
